@@ -25,25 +25,46 @@ Proof. intros tys m k file chunks dropped app lr l Hk Hrun Hs. rewrite <- Hs. ex
 Print Assumptions C15_delim_never_a_table.
 
 (* ---------- record-marker formats: FASTQ (OneLine 4 64 true) and two-line FASTA (OneLine 2 62 false) ---------- *)
-(* T3: a completed read means there was no violation: every delivered buffer passed the marker / '+' validation
-   and the buffers cover the text — for every chunk size and both reader modes. *)
+(* T3: a completed read means there was no violation: every delivered buffer passed the marker / '+' validation,
+   the buffers cover the text up to an ignorable tail, and (end-of-file check of /repo 03a5b64) no final record was
+   cut short - for EVERY file, every chunk size and both reader modes. *)
 Theorem C15_oneline_never_a_table :
+  forall n hdr plus m k file chunks dropped app lines,
+    (1 <= n)%nat -> (plus = true -> (3 <= n)%nat) -> hdr <> 10%Z -> (1 <= k)%nat ->
+    read_chunks true (OneLine n hdr plus) m k file = Done chunks dropped app lines ->
+    spec_oneline (OneLine n hdr plus) (norm_text file) = None.
+Proof. exact oneline_never_a_table_strong. Qed.
+Print Assumptions C15_oneline_never_a_table.
+
+(* the statement before the end-of-file check existed (texts of whole records only) is a corollary *)
+Theorem C15_oneline_never_a_table_whole :
   forall n hdr plus m k file chunks dropped app lines,
     (1 <= n)%nat -> (plus = true -> (3 <= n)%nat) -> hdr <> 10%Z -> (1 <= k)%nat -> whole n (norm_text file) ->
     read_chunks true (OneLine n hdr plus) m k file = Done chunks dropped app lines ->
     spec_oneline (OneLine n hdr plus) (norm_text file) = None.
 Proof. exact oneline_never_a_table. Qed.
-Print Assumptions C15_oneline_never_a_table.
+Print Assumptions C15_oneline_never_a_table_whole.
 
 (* T4: whatever the chunk size and mode, a reported line really is an offending line of the whole text
-   (global line = lines delivered earlier + line inside the buffer being validated). *)
+   (global line = lines delivered earlier + line inside the buffer being validated), or it is the first line of a
+   final record that was cut short: the first line after the last complete record, with the lines from there on
+   not all white space.  (Before the end-of-file check the second alternative did not exist; for texts of whole
+   records it still does not: C15_oneline_reported_line_offends_whole.) *)
 Theorem C15_oneline_reported_line_offends :
   forall n hdr plus m k file l chunks,
     (1 <= n)%nat -> (plus = true -> (3 <= n)%nat) -> hdr <> 0%Z -> (1 <= k)%nat ->
     read_chunks true (OneLine n hdr plus) m k file = FormatError l chunks ->
-    line_is_bad n hdr plus (norm_text file) l.
+    line_is_bad n hdr plus (norm_text file) l \/ incomplete_at n hdr plus (norm_text file) l.
 Proof. exact oneline_reported_line_offends. Qed.
 Print Assumptions C15_oneline_reported_line_offends.
+
+Theorem C15_oneline_reported_line_offends_whole :
+  forall n hdr plus m k file l chunks,
+    (1 <= n)%nat -> (plus = true -> (3 <= n)%nat) -> hdr <> 0%Z -> (1 <= k)%nat -> whole n (norm_text file) ->
+    read_chunks true (OneLine n hdr plus) m k file = FormatError l chunks ->
+    line_is_bad n hdr plus (norm_text file) l.
+Proof. exact oneline_reported_line_offends_whole. Qed.
+Print Assumptions C15_oneline_reported_line_offends_whole.
 
 (* T5: with a single violation in the file (the property's quantifier) the reported line is THE line of the
    offending record, hence identical for every chunk size, both modes. *)
@@ -68,8 +89,9 @@ Proof. exact oneline_line_chunk_independent. Qed.
 Print Assumptions C15_oneline_line_chunk_independent.
 
 (* T6 (after the repair of FastQBuffer._validate, /repo 570279e: a '+' violation that precedes the first marker
-   violation is raised first): NO assumption on the number of violations — whatever the chunk size and reader
-   mode, the reported line is the FIRST offending line of the whole text.  hdr <> 0 and hdr <> 10 exclude the two
+   violation is raised first, and the end-of-file check of /repo 03a5b64): NO assumption on the number of violations
+   or on the text — whatever the chunk size and reader mode, the reported line is the one the specification gives:
+   the FIRST offending line inside a complete record, else the first line of a final record that was cut short.  hdr <> 0 and hdr <> 10 exclude the two
    byte values for which "first byte of an empty line" reads differently in the reader and in the specification
    (Proofs/C15_oneline.v marker_0_counterexample, Proofs/C15_first.v first_bad_line_marker_10); FASTQ '@' = 64 and
    FASTA '>' = 62 satisfy both. *)
@@ -120,6 +142,43 @@ Example C15_first_bad_line_nonvacuous :
   /\ line_is_bad 4 64 true (norm_text fq_deleted_plus) 6
   /\ line_is_bad 4 64 true (norm_text fq_deleted_plus) 8.
 Proof. exact first_bad_line_example. Qed.
+
+(* an entry cut short at the end of the file (FASTQ, second record without its '+' line): the repaired reader reports
+   line 4, the first line of the truncated record, for every chunk size 1..30 and both modes, as specified; line 4
+   itself ("@b") does not offend - the second alternative of T4 *)
+Example C15_truncated_record_reported :
+  forallb (fun k => match read_chunks true FastQ Seek k fq_truncated, read_chunks true FastQ Prepend k fq_truncated with
+                    | FormatError 4 _, FormatError 4 _ => true
+                    | _, _ => false
+                    end) chunk_sizes_1_30 = true
+  /\ spec_oneline FastQ (norm_text fq_truncated) = Some 4%nat
+  /\ incomplete_at 4 64 true (norm_text fq_truncated) 4
+  /\ ~ line_is_bad 4 64 true (norm_text fq_truncated) 4.
+Proof. exact truncated_record_reported. Qed.
+
+(* History: the code at the pinned commit violated T3 - it dropped the truncated record silently (Done with the first
+   record only) for every chunk size 1..30 and both modes (repaired in /repo by 03a5b64). *)
+Theorem C15_truncated_record_pinned_refuted :
+  exists file k m chunks dropped app lines,
+    read_chunks false FastQ m k file = Done chunks dropped app lines
+    /\ spec_oneline FastQ (norm_text file) = Some 4%nat
+    /\ chunks = [fq_first_record] /\ dropped = [64;98;10;71;10;33;10]%Z
+    /\ forallb (fun k' => match read_chunks false FastQ Seek k' file, read_chunks false FastQ Prepend k' file with
+                          | Done c1 _ _ _, Done c2 _ _ _ => zll_eqb c1 [fq_first_record] && zll_eqb c2 [fq_first_record]
+                          | _, _ => false
+                          end) chunk_sizes_1_30 = true.
+Proof. exact truncated_record_pinned_refuted. Qed.
+Print Assumptions C15_truncated_record_pinned_refuted.
+
+(* a trailing blank line is not a record: the read still completes *)
+Example C15_trailing_blank_line_done :
+  let file := (fq_first_record ++ [10%Z])%list in
+  forallb (fun k => match read_chunks true FastQ Seek k file, read_chunks true FastQ Prepend k file with
+                    | Done c1 _ _ _, Done c2 _ _ _ => zll_eqb c1 [fq_first_record] && zll_eqb c2 [fq_first_record]
+                    | _, _ => false
+                    end) chunk_sizes_1_30 = true
+  /\ spec_oneline FastQ (norm_text file) = None.
+Proof. exact trailing_blank_line_done. Qed.
 
 (* Source tie for the line bookkeeping (shared with C01: Gen/C01.v is regenerated from /repo on every run): the
    reported line is the local line plus the lines delivered before, the marker violation of record i+1 is reported as
